@@ -858,6 +858,8 @@ class exists_elim(Method):
                         item.args = [exists_prop] + item.args
                     item.prevs = item.prevs[:-1] + new_intros + [item.prevs[-1]]
                     break
+                elif item.rule in ('assume', 'variable') or item.subproof:
+                    raise AssertionError("exists_elim: goal must come after all assumptions and variables of its block")
                 else:
                     state.set_line(id.incr_id(i), item.rule, args=item.args, prevs=item.prevs, \
                                    th=Thm(item.th.prop, item.th.hyps, body))
